@@ -12,10 +12,11 @@ image bytes (``api.link([obj], layout, use_runtime=True)``) are compared:
 How the processes are made.  Starting an interpreter and importing ppci costs
 10x what one compile costs, so for each variant above the shard starts ONE
 ``/venv/bin/python`` child (env PYTHONHASHSEED=<variant>, PYTHONPATH=$VERIF_REPO,
-cwd=$VERIF_TMP, watchdog) that imports ``ppci.api`` and then ``os.fork()``s
+cwd=$VERIF_TMP, watchdog) that imports ``ppci.api``, calls ``get_arch(target)``
+(the x86-64 assembler tables alone take 2 s to build) and then ``os.fork()``s
 once per compile: every compile runs in its own process whose state is that of
-a fresh interpreter that has imported ppci and compiled nothing (per-compile
-``signal.alarm`` watchdog).  Distinct variants are distinct interpreter
+a fresh interpreter that has imported ppci, described the target and compiled
+nothing (per-compile ``signal.alarm`` watchdog and address-space limit).  Distinct variants are distinct interpreter
 processes (own hash seed, own address-space layout).  The "compiled earlier"
 variant does not fork: it compiles everything in one process.
 
@@ -46,7 +47,8 @@ RULE = ("generated C translation units (6..34 live int variables, loops, arrays,
         "after an unrelated module and all earlier inputs) and the sha256 of obj.save text and of the linked image are "
         "compared with the seed-0 build; non-trivial = the build succeeded; distinct by (input,target,level)")
 ASSUMPTIONS = ["sha256 equality of ObjectFile.save text / image bytes is byte identity",
-               "a forked child of an interpreter that only imported ppci.api is a process that compiled nothing before",
+               "a forked child of an interpreter that only imported ppci.api and called get_arch(target) is a process that "
+               "compiled nothing before",
                "PYTHONHASHSEED=random draws a seed different from 0..4 (probability 1 - 2^-32 per run)"]
 MANIFEST_ENTRY = {
     "text": "Every generated source is compiled in eight differently seeded / differently pre-loaded processes per target "
@@ -91,7 +93,7 @@ def gen_prog(r, dis, idx):
     """Abstract program.  The rng stream does not depend on `dis` (a disabled
     operator is replaced after it was drawn), so the per-target renderings of
     program idx have the same shape."""
-    nvars = (6, 12, 18, 34)[idx % 4]
+    nvars = (6, 14, 22, 34, 10, 18, 26, 30)[idx % 8]
     if "tiny" in dis:
         # m68k: register allocation does not terminate (memory grows without bound) for any function with two
         # operations at -O0, e.g. `return (a - b) | a;`: only single-operation functions are generated
@@ -586,6 +588,13 @@ def build(job):
     return res
 
 results = {"ppci": os.path.abspath(ppci.__file__), "hashseed": os.environ.get("PYTHONHASHSEED"), "jobs": {}}
+# the architecture description (instruction classes, assembler tables) is built once per interpreter, before
+# any fork: importing and describing a target is not compiling
+for t in sorted(set(j["target"] for j in spec["jobs"])):
+    try:
+        api.get_arch(t)
+    except BaseException:
+        pass
 if spec["mode"] == "chain":
     for job in spec["pre"]:
         results.setdefault("pre", []).append(build(job)["obj"][:12])
